@@ -80,7 +80,7 @@ Proof. rewrite <- (map_map (to_py false) fst).
 (* the two printers put parentheses in the same places *)
 Lemma snd_text_py (want : bool) (e : expr) : snd (text_py F np want e) = snd (to_py want e).
 Proof. destruct e as [n|v|vs|kvs|op i m p args]; try reflexivity.
-  - cbn [text_py to_py]. destruct (want && num_is_neg v); reflexivity.
+  - cbn [text_py to_py]. destruct (want && prints_with_sign v); reflexivity.
   - destruct args as [|a [|b l]]; [reflexivity| |].
     + destruct i; [rewrite text_py_unary, to_py_unary; reflexivity|].
       destruct m; [rewrite text_py_method, to_py_method|rewrite text_py_func, to_py_func]; reflexivity.
@@ -91,7 +91,7 @@ Proof. destruct e as [n|v|vs|kvs|op i m p args]; try reflexivity.
 Lemma text_py_parens (want : bool) (e : expr) : snd (text_py F np want e) = true ->
   exists t, fst (text_py F np want e) = sparen t.
 Proof. destruct e as [n|v|vs|kvs|op i m p args]; try discriminate.
-  - cbn [text_py]. destruct (want && num_is_neg v); [|discriminate]. intros _. eexists. reflexivity.
+  - cbn [text_py]. destruct (want && prints_with_sign v); [|discriminate]. intros _. eexists. reflexivity.
   - destruct args as [|a [|b l]]; [discriminate| |].
     + destruct i; [rewrite text_py_unary|destruct m; [rewrite text_py_method|rewrite text_py_func]; discriminate].
       cbn [fst snd]. intros ->. eexists. reflexivity.
@@ -203,7 +203,7 @@ Proof. intros Hn want rest G. cbn [text_py to_py fst snd] in *. rewrite oapp_one
     apply lexg_ident; [exact Hn|reflexivity|reflexivity]. Qed.
 
 Lemma lex_ok_val (v : pval) : (forall m, In m (floats_of_val v) -> float_lex_ok F m) -> lex_ok (EVal v).
-Proof. intros Hf want rest G. cbn [text_py to_py] in *. destruct (want && num_is_neg v); cbn [fst snd] in *.
+Proof. intros Hf want rest G. cbn [text_py to_py] in *. destruct (want && prints_with_sign v); cbn [fst snd] in *.
   - apply lexg_paren. intros r Hr. apply lexg_val; assumption.
   - apply lexg_val; [exact Hf|]. exact (goodrest_plain (EVal v) rest eq_refl G). Qed.
 
